@@ -217,6 +217,22 @@ def main():
             cmp("bmqv[l=%d]" % l, norm_c(cr), mr, l=l, kind=kind, da=le(l, da), db=le(l, db), certa=certa,
                 certb=certb, tapea=ta, tapeb=tb, helloa=ha, hellob=hb, kca=kca, kcb=kcb)
 
+        # ---- BMQV, constructed: s = 0 on one side (K = O => K <- G in the standard) ----
+        import belt
+        for which in ("sa=0", "sb=0"):
+            ua, ub, da, db = rq(), rq(), rq(), rq()
+            Va, Vb = E.mul(ua, G), E.mul(ub, G)
+            t = int.from_bytes(belt.hash(le(l, Va[0]) + le(l, Vb[0]))[:l // 8], "little")
+            if which == "sa=0":
+                da = ua * pow(2 ** l + t, -1, q) % q
+            else:
+                db = ub * pow(2 ** l + t, -1, q) % q
+            certa, certb = b"A" + bign.enc_point(l, E.mul(da, G)), b"B" + bign.enc_point(l, E.mul(db, G))
+            cr = C.bmqv(l, le(l, da), le(l, db), certa, certb, le(l, ua), le(l, ub), None, None, True, True)
+            mr = m_bmqv(l, da, db, certa, certb, le(l, ua), le(l, ub), None, None, True, True)
+            cmp("bmqv[l=%d] constructed s=0" % l, norm_c(cr), mr, l=l, kind=which, da=le(l, da), db=le(l, db),
+                certa=certa, certb=certb, tapea=le(l, ua), tapeb=le(l, ub))
+
         # ---- BSTS ----
         for i in range(NR):
             (da, Qa), (db, Qb) = keypair(), keypair()
